@@ -49,7 +49,7 @@ BOUNDED_ONLY = {
     'C11': ['floating-point residuals of Q R = A and Q^H Q = I (the deductive proof is in exact arithmetic)'],
     'C12': ['error identity ||A - u s v||^2 = sum of discarded s^2 for tol > 0', 'floating-point residuals of the isometry clauses and of the zero-tolerance product'],
     'C13': ['scale in [sqrt(1 - L tol), 1]', 'error identity for compress', 'first truncated bond keeps the prescribed Schmidt values', 'from_vector error bound'],
-    'C14': ['orthonormality of the Krylov vectors', 'projected map equals the tridiagonal / Hessenberg matrix', 'positivity of the Arnoldi sub-diagonal (the Lanczos off-diagonals are discharged)'],
+    'C14': ['orthonormality of the Krylov vectors', 'projected map equals the tridiagonal / Hessenberg matrix (the Hessenberg *structure* of the Arnoldi matrix is discharged)', 'positivity of the Arnoldi sub-diagonal (the Lanczos off-diagonals are discharged)'],
     'C15': ['Ritz value bounds', 'norm preservation of the Hermitian exponential', 'exactness once the Krylov space is exhausted'],
     'C16': ['rewrites preserve the denoted operator', 'is_consistent after every rewrite', 'simplify never increases node/edge counts'],
     'C17': ['graph of trees denotes the padded sum', 'unrolled automaton denotes the sum over paths', 'dense meaning agrees with the symbolic meaning'],
